@@ -9,7 +9,7 @@
 <% req_type = next(d for d in router.incoming if d is not None).req_type %>\
 <% rsp_type = next(d for d in router.incoming if d is not None).rsp_type %>\
 % if router.route_algo == RouteAlgo.ID:
-${router.table.render(idx_type=f"logic[{max(clog2(len(router.outgoing)), 1)-1}:0]")}
+${router.table.render(id_bits=network.routing.num_id_bits, idx_type=f"logic[{max(clog2(len(router.outgoing)), 1)-1}:0]")}
 % endif
 
 ${req_type} [${len(router.incoming)-1}:0] ${router.name}_req_in;
